@@ -98,7 +98,11 @@ impl NetNode {
 			.map_err(|e| format!("Chain::init: {:?}", e))?;
 		let chain = Arc::new(chain);
 		p2c.set_chain(chain.clone());
+		// a fresh SyncState says `Initial`, which counts as syncing; the sync loop (not run here) moves it
+		// to NoSync once no peer has more work. The simulated peers never advertise more work than
+		// the world holds, and the runs start from NoSync unless they say otherwise.
 		let sync = Arc::new(SyncState::new());
+		sync.update(grin_chain::SyncStatus::NoSync);
 		let net = Arc::new(NetToChainAdapter::new(sync.clone(), chain.clone(), pool.clone(), grin_servers::ServerConfig::default(), vec![]));
 		let store = grin_p2p::store::PeerStore::new(dir.join("peers").to_str().unwrap()).map_err(|e| format!("peer store: {:?}", e))?;
 		let p2p_cfg = P2PConfig::default();
@@ -500,6 +504,8 @@ pub enum NOp {
 }
 
 pub struct RelayCfg {
+	/// the node still believes it is syncing (no orphan-parent requests, no hooks)
+	pub syncing: bool,
 	pub n_honest: usize,
 	pub byz: bool,
 	/// percent of the node's requests a peer leaves unanswered
@@ -903,6 +909,23 @@ pub fn gen_relay_ops(world: &World, cfg: &RelayCfg, rng: &mut SimRng) -> Vec<NOp
 	let mut ops = vec![];
 	let order = crate::chainsim::topo_order(world, rng);
 	let mut order: Vec<usize> = order.into_iter().filter(|i| *i != 0).collect();
+	// one schedule in three: everything that loses first, the winning branch afterwards - every block of
+	// the winning branch then arrives below the node's head and the node has to reorganise onto it
+	if rng.chance(1, 3) {
+		let win: BTreeSet<usize> = world.path_to(world.winner()).into_iter().collect();
+		let fork_point = world
+			.blocks
+			.iter()
+			.filter(|b| !win.contains(&b.id))
+			.filter_map(|b| b.parent)
+			.filter(|p| win.contains(p))
+			.min()
+			.unwrap_or(0);
+		let late: Vec<usize> = order.iter().cloned().filter(|i| win.contains(i) && world.blocks[*i].height > world.blocks[fork_point].height).collect();
+		let early: Vec<usize> = order.iter().cloned().filter(|i| !late.contains(i)).collect();
+		order = early;
+		order.extend(late);
+	}
 	// local swaps: children before parents now and then (orphans), forks interleaved
 	let window = *rng.pick(&[1usize, 2, 4]);
 	if window > 1 {
@@ -988,6 +1011,9 @@ pub fn run_relay(world: &World, prop: &str, cfg: &RelayCfg, ops: &[NOp], seed: u
 			return out;
 		}
 	};
+	if cfg.syncing {
+		node.sync.update(grin_chain::SyncStatus::BodySync { current_height: 0, highest_height: 0 });
+	}
 	let winner = world.winner();
 	let (wtd, wh) = (world.blocks[winner].total_difficulty, world.blocks[winner].height);
 	let mut peers = vec![];
@@ -1146,6 +1172,7 @@ pub fn relay_case(property: &str, tier: &str, seed: u64, case: u64) -> CaseResul
 	for run in 0..k {
 		let mut rr = srng.fork(&format!("run{}", run));
 		let cfg = RelayCfg {
+			syncing: run % 4 == 3,
 			n_honest: 2 + rr.usize_below(2),
 			byz: !world.bad.is_empty(),
 			ignore_pct: *rr.pick(&[0u64, 10, 30]),
@@ -1178,7 +1205,7 @@ pub fn relay_case(property: &str, tier: &str, seed: u64, case: u64) -> CaseResul
 		if let Some((idx, mut v)) = out.violation {
 			v.replay = json!({
 				"engine": "netsim", "mode": "relay", "property": property, "tier": tier, "case_seed": seed,
-				"n_honest": cfg.n_honest, "byz": cfg.byz, "ignore_pct": cfg.ignore_pct, "run": run,
+				"n_honest": cfg.n_honest, "byz": cfg.byz, "syncing": cfg.syncing, "ignore_pct": cfg.ignore_pct, "run": run,
 				"failed_at_op": idx, "ops": serde_json::to_value(&ops).unwrap_or(Value::Null),
 				"log_tail": out.log.iter().rev().take(12).cloned().collect::<Vec<_>>(),
 			});
@@ -1209,6 +1236,7 @@ pub fn replay(rp: &Value) -> Result<Option<Violation>, String> {
 			let mut world = crate::checks::build_world_with(&property, &tier, seed, net_world_tweak)?;
 			let ops: Vec<NOp> = serde_json::from_value(rp["ops"].clone()).map_err(|e| e.to_string())?;
 			let cfg = RelayCfg {
+				syncing: rp["syncing"].as_bool().unwrap_or(false),
 				n_honest: rp["n_honest"].as_u64().unwrap_or(2) as usize,
 				byz: rp["byz"].as_bool().unwrap_or(false),
 				ignore_pct: rp["ignore_pct"].as_u64().unwrap_or(0),
@@ -1219,6 +1247,7 @@ pub fn replay(rp: &Value) -> Result<Option<Violation>, String> {
 			for r in 0..=run {
 				let mut rr = srng.fork(&format!("run{}", r));
 				let c = RelayCfg {
+					syncing: false,
 					n_honest: 2 + rr.usize_below(2),
 					byz: !world.bad.is_empty(),
 					ignore_pct: *rr.pick(&[0u64, 10, 30]),
@@ -1234,5 +1263,57 @@ pub fn replay(rp: &Value) -> Result<Option<Violation>, String> {
 			}))
 		}
 		other => Err(format!("unknown netsim mode {:?}", other)),
+	}
+}
+
+// ------------------------------------------------------------------------------------------
+// a node plus its simulated peers as a unit, for engines that drive their own workload (poolsim)
+
+pub struct NetLink {
+	pub node: NetNode,
+	pub peers: Vec<SimPeer>,
+}
+
+impl NetLink {
+	/// `base` blocks are applied before anybody connects. Peer 0 dials in (source of transactions and
+	/// blocks); with `with_relay` the node also has one outbound connection (peer 1), which is what its
+	/// Dandelion epoch picks as stem relay and what receives its broadcasts.
+	pub fn new(dir: &std::path::Path, genesis: Block, pool_cfg: PoolConfig, base: &[Block], opts: grin_chain::Options, with_relay: bool) -> Result<NetLink, String> {
+		install_panic_recorder();
+		grin_util::verif::set_pacing_off(true);
+		let node = NetNode::assemble(dir, genesis, pool_cfg, false)?;
+		for b in base {
+			node.chain.process_block(b.clone(), opts).map_err(|e| format!("base block h{}: {:?}", b.header.height, e))?;
+		}
+		node.take_events();
+		let head = node.chain.head().map_err(|e| format!("{:?}", e))?;
+		let mut peers = vec![connect_inbound(&node, 0, head.total_difficulty.to_num(), head.height, Capabilities::default())?];
+		if with_relay {
+			peers.push(connect_outbound(&node, 1, head.total_difficulty.to_num(), head.height, Capabilities::default())?);
+		}
+		Ok(NetLink { node, peers })
+	}
+
+	/// One message from peer `slot`, then the barrier over all connections.
+	pub fn send<T: Writeable>(&mut self, slot: usize, ty: Type, body: T) -> Result<(), String> {
+		if !self.peers[slot].send(ty, body) {
+			return Err(format!("connection {} is closed", slot));
+		}
+		barrier(&mut self.peers, Some(slot))?;
+		if let Some(p) = take_panics().first() {
+			return Err(format!("node thread panicked: {}", p));
+		}
+		Ok(())
+	}
+
+	pub fn take(&mut self, slot: usize) -> Vec<Message> {
+		std::mem::take(&mut self.peers[slot].inbox)
+	}
+
+	pub fn shutdown(&mut self) {
+		for p in self.peers.iter_mut() {
+			p.close();
+		}
+		self.node.shutdown();
 	}
 }
